@@ -780,14 +780,25 @@ def numeric_worlds(thorough):
     def spinful(r):
         m = km.build(int(r.randint(1 << 30)), nw=2, keys=km.ALLKEYS, spinful=True)
         return m.system(periodic=(True, True, False))
+    def c4v(r):
+        rr = random.Random(int(r.randint(1 << 30)))
+        ham = KS.symmetric_hamiltonian("C4v", rr, nw=2, planar=True)
+        return KS.make_system("C4v", nw=2, ham=ham, periodic=(True, True, False))
     ext = lambda Ef, om, tab=True: real_calculators(Ef, om, tab=tab, external=True)
+    # without the tetrahedron calculators: the 12 tetrahedra of TetraWeightsParal cut every face along one fixed diagonal, which a
+    # 4-fold rotation or a mirror maps to the other one - with symmetry reduction the tetrahedron results are not those of the
+    # full grid (reported as an observation by C07, property of the symmetry reduction, not of the factorisation)
+    internal = lambda Ef, om, tab=True: real_calculators(Ef, om, tab=tab, external=False, tetra=False)
     both = ("fftw", "numpy")
     # 6 = 2 x 3: the only way to have an odd FFT length together with a non-zero K-shift
     w = [("R+AA planar", r_aa_planar, ext, [(6, 4, 1)] + ([(4, 4, 1), (6, 6, 1), (8, 4, 1)] if thorough else []), both, 9 if thorough else 5),
          ("R+AA", r_aa, ext, [(3, 4, 2)] + ([(4, 2, 2), (6, 2, 2), (5, 3, 1)] if thorough else []), both, 12 if thorough else 5),
          ("k.p", kp, kp_calculators, [(3, 4, 2)] + ([(4, 4, 1)] if thorough else []), ("fftw",), 6 if thorough else 4),
          ("SOC", soc, soc_calculators, [(3, 4, 2)] + ([(4, 4, 1)] if thorough else []), both, 6 if thorough else 3),
-         ("spinful all matrices", spinful, spin_calculators, [(4, 3, 1)] + ([(6, 4, 1)] if thorough else []), both, 6 if thorough else 3)]
+         ("spinful all matrices", spinful, spin_calculators, [(4, 3, 1)] + ([(6, 4, 1)] if thorough else []), both, 6 if thorough else 3),
+         # factorisation x symmetry: every factorisation into two C4v-symmetric grids, irreducible K-points + symmetrisation,
+         # against the full unsymmetrised run of the first factorisation
+         ("C4v-symmetric, irreducible", c4v, internal, [(4, 4, 1)] + ([(6, 6, 1)] if thorough else []), ("fftw",), 4)]
     return w
 
 
@@ -812,6 +823,10 @@ def part_numeric(rep, thorough, rng, tag):
                 if system is None:          # built through private names that are gone
                     break
                 facts = factorisations(N)
+                irred = "irreducible" in label
+                if irred:
+                    Gs = KS.project_group(system.pointgroup)
+                    facts = [f for f in facts if KS.symmetric_grid(f[0], Gs) and KS.symmetric_grid(f[1], Gs)]
                 facts = covering_sample(facts, maxfac, rng)
                 info0 = dict(world=label, N=N, system_seed=seed(), attempt=attempts)
                 try:
@@ -833,11 +848,11 @@ def part_numeric(rep, thorough, rng, tag):
                 ref = None
                 for div, fft in facts:
                     for lib in libs:
-                        info = dict(info0, NKdiv=div, NKFFT=fft, fftlib=lib)
+                        info = dict(info0, NKdiv=div, NKFFT=fft, fftlib=lib, use_irred_kpt=bool(irred and ref is not None))
                         try:
                             with quiet():
                                 grid = wb.Grid(system=system, NKdiv=list(div), NKFFT=list(fft))
-                            res = KS.run_wb(system, grid, mkcalcs(Ef, omega), False, tag + "_num", parameters_K=dict(fftlib=lib))
+                            res = KS.run_wb(system, grid, mkcalcs(Ef, omega), irred and ref is not None, tag + "_num", parameters_K=dict(fftlib=lib))
                         except MachineryError:
                             raise
                         except Exception as ex:
@@ -864,7 +879,8 @@ def part_numeric(rep, thorough, rng, tag):
              what="CumDOS, DOS, AHC, Ohmic (sea/surface), BerryDipole, OpticalConductivity, JDOS, tetrahedron DOS/CumDOS/AHC, TabulatorAll(Energy, "
                   "Velocity, BerryCurvature, InvMass) with external terms on random R-space models with AA; a k.p system; a SystemSOC; Spin, Morb, "
                   "SHC (static, dynamic), GME, NLAHC, NLDrude, AHC_Zeeman_spin, ShiftCurrent, tabulated Spin/OrbitalMoment/SpinBerry/DerBerry on a "
-                  "spinful model with all matrices: every (quick: sampled) factorisation and fftlib in {fftw, numpy} against the first",
+                  "spinful model with all matrices: every (quick: sampled) factorisation and fftlib in {fftw, numpy} against the first; a C4v-symmetric "
+                  "model: irreducible + symmetrised runs of every symmetric factorisation against the full run of the first",
              comparisons=per_world, total=ncmp, worst_relative_deviation=worst, tolerance=TOL,
              tolerance_over_worst=(TOL / worst if worst > 0 else None), systems_excluded_by_EnergiesSafe=skipped)
 
@@ -902,6 +918,7 @@ def check(pid, tier):
         t1 = cpu_seconds()
         part_numeric(rep, thorough, rng, tag)
         KS.flush_private(rep)
+        rep.part("numeric_only", parts=["real_calculators"], note="float comparisons (deciding, but not part of the model_checking level claim)")
         rep.part("cpu_seconds", exact_parts=round(t1 - t0, 1), real_calculators=round(cpu_seconds() - t1, 1), **cpu_split())
     except Exception:
         if rep.violations:          # never lose what was already found
